@@ -424,3 +424,74 @@ func constantInt64(c *types.Const) (int64, bool) {
 	v, ok := constant.Int64Val(c.Val())
 	return v, ok
 }
+
+// localFieldValue: v is a load of field f of a local struct (a stack or heap allocation of this function) that is
+// stored to exactly once in the function: returns the value stored. A per-connection object kept in a field of a
+// local 'connection' struct is the same object wherever that field is read.
+func localFieldValue(v ssa.Value) (ssa.Value, bool) {
+	u, ok := v.(*ssa.UnOp)
+	if !ok || u.Op != token.MUL {
+		return nil, false
+	}
+	fa, ok := u.X.(*ssa.FieldAddr)
+	if !ok {
+		return nil, false
+	}
+	base := fa.X
+	al, ok := base.(*ssa.Alloc)
+	if !ok {
+		return nil, false
+	}
+	return fieldOfLocal(al, fa.Field, 3)
+}
+
+// fieldOfLocal: the one value field #field of the local al can hold: its only field store, or - when al is a
+// copy of another local (a value receiver, a struct passed on) - that local's.
+func fieldOfLocal(al *ssa.Alloc, field int, depth int) (ssa.Value, bool) {
+	if depth == 0 {
+		return nil, false
+	}
+	var stored ssa.Value
+	n := 0
+	var whole []*ssa.Store
+	for _, rf := range refsOf(al) {
+		if fa2, ok := rf.(*ssa.FieldAddr); ok && fa2.Field == field {
+			for _, r2 := range refsOf(fa2) {
+				if st, ok := r2.(*ssa.Store); ok && st.Addr == ssa.Value(fa2) {
+					n++
+					stored = st.Val
+				}
+			}
+		}
+		if st, ok := rf.(*ssa.Store); ok && st.Addr == ssa.Value(al) {
+			whole = append(whole, st)
+		}
+	}
+	if n == 1 && len(whole) == 0 {
+		return stored, true
+	}
+	if n == 0 && len(whole) == 1 {
+		if u, ok := whole[0].Val.(*ssa.UnOp); ok && u.Op == token.MUL {
+			if src, ok := u.X.(*ssa.Alloc); ok && src != al {
+				return fieldOfLocal(src, field, depth-1)
+			}
+		}
+	}
+	return nil, false
+}
+
+// canonObject follows localFieldValue (twice at most) so that two reads of the same once-set local field compare equal.
+func canonObject(v ssa.Value) ssa.Value {
+	for i := 0; i < 2; i++ {
+		w, ok := localFieldValue(v)
+		if !ok {
+			return v
+		}
+		v = w
+	}
+	return v
+}
+
+func sameObjectValue(a, b ssa.Value) bool {
+	return a == b || canonObject(a) == canonObject(b)
+}
